@@ -70,8 +70,8 @@ Lemma releaseMem_facts a c :
   end.
 Proof.
   intros Hcalm. unfold releaseMem. destruct (0 <? mem (hard c)); [|exact Hcalm].
-  destruct (a <=? mem (used c)); [|exact Hcalm].
-  destruct Hcalm as (Hl & Hs & Ht & Hm1 & Hm2). unfold calm_ctx; cbn. repeat split; assumption.
+  destruct Hcalm as (Hl & Hs & Ht & Hm1 & Hm2).
+  destruct (a <=? mem (used c)); unfold calm_ctx; cbn; repeat split; assumption.
 Qed.
 
 Lemma setStopLevel_facts l c :
